@@ -16,6 +16,12 @@ Open Scope list_scope.
 Lemma mk_rel_vars_In v vars mat : In v (rvars (mk_rel vars mat)) -> In v vars.
 Proof. unfold mk_rel. cbv zeta. cbn [rvars]. intros H. apply filter_In in H. tauto. Qed.
 
+Lemma rel_identity_vars_In v vars : In v (rvars (rel_identity vars)) -> In v vars.
+Proof. unfold rel_identity. apply mk_rel_vars_In. Qed.
+
+Lemma rel_zero_vars_In v vars : In v (rvars (rel_zero vars)) -> In v vars.
+Proof. unfold rel_zero. apply mk_rel_vars_In. Qed.
+
 Lemma rel_empty_vars : rvars rel_empty = [].
 Proof. reflexivity. Qed.
 
@@ -25,7 +31,7 @@ Proof.
   unfold homogenisation.
   destruct (list_str_eqb (rvars a) (rvars b)); [cbn [fst]; auto|].
   destruct (rel_is_empty a).
-  { cbn [fst]. intros H. right. unfold rel_identity in H. apply mk_rel_vars_In in H. exact H. }
+  { cbn [fst]. intros H. right. exact (rel_identity_vars_In _ _ H). }
   destruct (rel_is_empty b); [cbn [fst]; auto|].
   cbv zeta. cbn [fst]. intros H. apply mk_rel_vars_In in H. apply in_app_iff in H.
   destruct H as [H|H]; [auto|]. apply filter_In in H. tauto.
@@ -105,7 +111,7 @@ Proof.
   intros H. injection H as <-. cbn [cr_rel]. rewrite Hl. intros v Hv.
   apply (rel_fixpoint_vars _ _ _ Ef) in Hv. apply rel_comp_vars_In in Hv.
   destruct Hv as [Hv|Hv]; [|right; exact Hv].
-  unfold rel_zero in Hv. apply mk_rel_vars_In in Hv. destruct Hv as [<-|[]]. left; reflexivity.
+  apply rel_zero_vars_In in Hv. destruct Hv as [<-|[]]. left; reflexivity.
 Qed.
 
 (* ------------------------------------------------------------------ *)
@@ -119,12 +125,13 @@ Proof.
   set (r0 := mk_rel _ _).
   destruct (replace_column r0 vector x) as [r1|] eqn:E; [|discriminate].
   intros H. injection H as <-. intros Hv.
-  assert (Hv1 : In v (rvars r0)).
+  assert (Hr1 : rvars r1 = rvars (rel_identity (rvars r0))).
   { unfold replace_column in E. cbv zeta in E.
     destruct (index_of_str x (rvars r0)) as [j|].
-    - destruct (put_column _ j 0 vector) as [m|]; [|discriminate]. injection E as <-.
-      cbn [rvars] in Hv. unfold rel_identity in Hv. apply mk_rel_vars_In in Hv. exact Hv.
-    - injection E as <-. unfold rel_identity in Hv. apply mk_rel_vars_In in Hv. exact Hv. }
+    - destruct (put_column _ j 0 vector) as [m|]; [|discriminate]. injection E as <-. reflexivity.
+    - injection E as <-. reflexivity. }
+  assert (Hv1 : In v (rvars r0)).
+  { rewrite Hr1 in Hv. exact (rel_identity_vars_In _ _ Hv). }
   unfold r0, mk_rel in Hv1. cbv zeta in Hv1. cbn [rvars] in Hv1.
   apply filter_In in Hv1. destruct Hv1 as [Hin Hne]. apply in_map_iff in Hin.
   destruct Hin as [[s|] [Hs Ho]].
@@ -136,7 +143,7 @@ Lemma an_constant_vars index x d r v :
   an_constant index x d = ROk r -> In v (rvars (cr_rel r)) -> v = x.
 Proof.
   unfold an_constant. intros H. injection H as <-. cbn [cr_rel]. intros Hv.
-  unfold rel_zero in Hv. apply mk_rel_vars_In in Hv. destruct Hv as [<-|[]]. reflexivity.
+  apply rel_zero_vars_In in Hv. destruct Hv as [<-|[]]. reflexivity.
 Qed.
 
 Lemma an_binary_vars index x op y z d r v :
@@ -161,7 +168,7 @@ Proof.
     | context [leaf_rel ?a ?b ?c] => destruct (leaf_rel a b c) as [r0|] eqn:EL; [|discriminate]
     end;
     injection H as <-; cbn [cr_rel] in Hv;
-    apply G; apply An_leaf.dedup_first_In; eapply leaf_rel_vars; [exact EL|exact Hv].
+    apply G; apply An_leaf.dedup_first_In; exact (leaf_rel_vars _ _ _ _ _ EL Hv).
 Qed.
 
 Lemma an_id_vars index x y d r v :
@@ -209,7 +216,7 @@ Proof.
     + intros H. injection H as <-. intros v Hv.
       cbn [stmt_vars]. rewrite (inc_dec_u_ops op Ei). cbn [uarg_vars].
       assert (Hv' : v = x \/ v = y).
-      { destruct (mem_strb op PREFIX); cbn in Hv; tauto. }
+      { destruct (mem_strb op PREFIX); cbn in Hv; intuition auto. }
       cbn [In]. destruct Hv' as [->| ->]; auto.
     + destruct (String.eqb_spec op "-") as [->|N3].
       { intros H. injection H as <-. cbn. tauto. }
@@ -352,11 +359,15 @@ Qed.
 
 Lemma leaf_bin_fin x op y z c A : leaf_bin x op y z c = Some A -> fin_all A.
 Proof.
-  unfold leaf_bin. destruct (mem_strb op BIN_OPS) eqn:Eop; cbn [negb]; [|discriminate].
-  destruct (cv_lookup CV_TABLE op y z) as [tr|] eqn:Etr; [|discriminate].
-  cbv zeta. intros H. injection H as <-.
+  intros H.
+  destruct (mem_strb op BIN_OPS) eqn:Eop;
+    [|unfold leaf_bin in H; rewrite Eop in H; discriminate H].
+  destruct (cv_lookup CV_TABLE op y z) as [tr|] eqn:Etr;
+    [|unfold leaf_bin in H; rewrite Eop, Etr in H; discriminate H].
   destruct (An_leaf.cv_lookup_len op y z tr Eop Etr) as [_ Hfin].
-  apply scol_fin_all. intros u. rewrite An_leaf.assoc_sc_index.
+  unfold leaf_bin in H. rewrite Eop, Etr in H. change (negb true) with false in H.
+  cbv iota zeta in H. Show. injection H as <-. Show.
+  apply scol_fin_all. intros u. cbv beta. rewrite An_leaf.assoc_sc_index.
   destruct (index_of_str u _) as [i|]; [|discriminate].
   match goal with |- nth i ?vec O <> I => destruct (nth_in_or_default i vec O) as [Hin|E] end;
     [|rewrite E; discriminate].
